@@ -4,6 +4,22 @@ import json, os
 V = os.path.dirname(os.path.dirname(os.path.abspath(__file__)))
 
 CHECKS = {
+ "C06": dict(
+    technique="runtime oracle: affine/log unit model + 51-rule table transcribed from docs and test tables vs real conversions and arithmetic in 4 registry modes; in-place vs functional twins; line observer on the anchored functions",
+    text="Every ordered pair among kelvin, degC, degF, degRe, degR and their deltas, generated offset units (rational scale/offset, several reference units), all 49 log-unit pairs, under "
+         "+ - * / ** neg abs == < > with numbers, numpy scalars, ndarrays and compounds, in all four {autoconvert_offset_to_baseunit} x {default_as_delta} modes: unit container and value "
+         "must equal the cited rule (exact in the Fraction registry for affine maps), ambiguous cells must raise the cited error class, to/convert/m_as/ito must agree and be mutually "
+         "inverse, in-place results equal functional twins, parse_units delta reading; a sys.monitoring observer shows all 9 arms of _add_sub/_iadd_sub were executed.",
+    note="cells no document or test row covers are recorded as 'unspecified, observed X' and never alarmed on; three recorded findings (O1-O3)",
+    ref="4/C06"),
+ "C15": dict(
+    technique="runtime oracle: reference-model root value and dimension vector before/after every rewriting helper; structural clauses for to_reduced_units and to_compact; ito twins",
+    text="Random quantities over all 385 canonical multiplicative units (1-4 units, exponents -3..3, 61 decades, int/Fraction/float/Decimal/ufloat) through to_root_units, to_base_units "
+         "(7 systems), to_reduced_units, to_compact, to_preferred and their ito_ forms, and through arithmetic under auto_reduce_dimensions / autoconvert_to_preferred: value and dimension "
+         "preserved (exact == in the Fraction registry on untainted units), ito object equals the functional result, no two mergeable units left, to_compact changes one decimal prefix on one "
+         "unit and brings a first-power leading unit into [1,1000), special inputs unchanged; every unit alone at decade boundaries.",
+    note="float-range excursions of tainted (Planck/atomic) factors are counted, not judged; five recorded findings (D12, T2-T5)",
+    ref="4/C15"),
  "C17": dict(
     technique="runtime oracle: argument recorder inside generated functions + reference-model ratios and dimension vectors vs ureg.wraps / ureg.check",
     text="Generated functions (1-5 parameters; positional-only, keyword-only, defaults) record exactly what they receive; wraps specs from {unit string, Unit, None, =A, =A*B, =A**2, =A/B ...} "
